@@ -73,6 +73,8 @@ func main() {
 		runC19(*out, *seed, *tier)
 	case "C17":
 		runC17(*out, *seed, *tier)
+	case "C14":
+		runC14(*out, *seed, *tier)
 	case "C04":
 		runC04(*out, *seed, *tier)
 	default:
